@@ -435,6 +435,86 @@ def refineNamesM (names : DimNames) (t : M) : M × Out :=
     | .err e => (.node bs dv ns kids, .err e)
     | .ok => setNamesM (some names) (.node bs dv ns kids)
 
+/-! ### update with a dict payload (tensordict/base.py:update, default options) -/
+
+/-- a payload value: a tensor or a (nested) python dict -/
+inductive PV where
+  | leaf (shape : Shape) (dev : Nat)
+  | dict (kvs : List (String × PV))
+  deriving Repr, Inhabited
+
+/-- `_convert_to_tensordict(dict)` = `TensorDict(dict, batch_size=self.batch_size, device=self.device, names=…)`:
+the entries are `set` one by one into a fresh tensordict carrying the container's metadata (each tensor is validated:
+shape, device); nested dicts are converted the same way. The first entry that is refused makes the constructor raise. -/
+def convertKids (bs : Shape) (dv : Option Nat) (ns : Option DimNames) : List (String × PV) → Kids → Except Err Kids
+  | [], acc => .ok acc
+  | (k, .leaf s d) :: r, acc =>
+    match validate bs dv ns acc (.leaf s d) with
+    | (_, _, .error e) => .error e
+    | (_, acc', .ok v') => convertKids bs dv ns r (kset k v' acc')
+  | (k, .dict sub) :: r, acc =>
+    match convertKids bs dv ns sub [] with
+    | .error e => .error e
+    | .ok ckids => convertKids bs dv ns r (kset k (.node bs dv ns ckids) acc)
+
+/-- `_set_tuple(key, value, inplace=False, validated=False)` for a payload value: a dict is converted by the
+tensordict that finally receives it -/
+def setPathPV : Path → PV → M → M × Out
+  | [], _, t => (t, .err .index)
+  | _ :: _, _, .leaf s d => (.leaf s d, .err .attr)
+  | [k], .leaf s d, .node bs dv ns kids =>
+    match validate bs dv ns kids (.leaf s d) with
+    | (ns', kids', .error e) => (.node bs dv ns' kids', .err e)
+    | (ns', kids', .ok v') => (.node bs dv ns' (kset k v' kids'), .ok)
+  | [k], .dict sub, .node bs dv ns kids =>
+    match convertKids bs dv ns sub [] with
+    | .error e => (.node bs dv ns kids, .err e)
+    | .ok ckids => (.node bs dv ns (kset k (.node bs dv ns ckids) kids), .ok)
+  | k :: k2 :: rest, v, .node bs dv ns kids =>
+    match kget k kids with
+    | none =>
+      let (c, o) := setPathPV (k2 :: rest) v (.node bs dv ns [])
+      (.node bs dv ns (kset k c kids), o)
+    | some (.node cbs cdv cns sub) =>
+      let (c, o) := setPathPV (k2 :: rest) v (.node cbs cdv cns sub)
+      (.node bs dv ns (kset k c kids), o)
+    | some (.leaf ..) => (.node bs dv ns kids, .err .key)
+
+/-- `update(payload)`: a dict value that meets a nested tensordict is handed to that tensordict's own `update`;
+everything else goes through `_set_tuple(validated=False)`; the first item that raises stops the update (earlier
+items stay written) -/
+def updateC : Nat → List (Path × PV) → M → M × Out
+  | _, [], t => (t, .ok)
+  | 0, _ :: _, t => (t, .err .runtime)
+  | _ + 1, _ :: _, .leaf s d => (.leaf s d, .err .attr)
+  | _ + 1, ([], _) :: _, .node bs dv ns kids => (.node bs dv ns kids, .err .index)
+  | fuel + 1, (k :: sub, v) :: rest, .node bs dv ns kids =>
+    let direct : M × Out :=
+      match setPathPV (k :: sub) v (.node bs dv ns kids) with
+      | (t', .err e) => (t', .err e)
+      | (t', .ok) => updateC fuel rest t'
+    match kget k kids, v with
+    | some (.node cbs cdv cns csub), .dict pv =>
+      let inner := if sub = [] then pv.map (fun kv => ([kv.1], kv.2)) else [(sub, v)]
+      match updateC fuel inner (.node cbs cdv cns csub) with
+      | (c, .err e) => (.node bs dv ns (kset k c kids), .err e)
+      | (c, .ok) => updateC fuel rest (.node bs dv ns (kset k c kids))
+    | _, _ => direct
+
+def pvW : PV → Nat
+  | .leaf .. => 0
+  | .dict kvs => go kvs
+where
+  go : List (String × PV) → Nat
+    | [] => 0
+    | (_, v) :: r => 2 + (match v with
+        | .dict sub => go sub
+        | .leaf .. => 0) + go r
+
+def updMeasureC : List (Path × PV) → Nat
+  | [] => 0
+  | (p, v) :: r => 1 + p.length + pvW v + updMeasureC r
+
 /-- apply `f` to the node addressed by `handle` (a nested handle `td[handle]`), rebuilding the path -/
 def atPath (f : M → M × Out) : Path → M → M × Out
   | [], t => f t
@@ -458,6 +538,7 @@ inductive Op where
   | popitem (handle : Path)
   | setdefault (handle key : Path) (v : M)
   | refineNames (handle : Path) (names : DimNames)
+  | update (handle : Path) (items : List (Path × PV))
   deriving Repr, Inhabited
 
 def clearM : M → M × Out
@@ -476,6 +557,7 @@ def step (t : M) : Op → M × Out
   | .popitem h => atPath popItem h t
   | .setdefault h key v => atPath (setDefaultPath key v) h t
   | .refineNames h ns => atPath (refineNamesM ns) h t
+  | .update h items => atPath (updateC (updMeasureC items) items) h t
 
 def run (t : M) : List Op → M
   | [] => t
